@@ -110,6 +110,14 @@ def rand_cfg(rng, clock_p=0.5, nstreams=None, max_erts=3, unknown_native_p=0.3, 
             erts.append({'name': 'ev%d' % ei,
                          'sc': rand_struct(rng, 3) if rich and rng.random() < 0.35 else None,
                          'p': rand_struct(rng, 5) if rng.random() < 0.9 else None})
+        if not ef['id'] and not ef['ts']:
+            # a valid event record type has at least one member (config_parse_v3._create_ert), and a
+            # record of zero bits cannot be represented in a CTF stream (S13 in DESIGN.md): without
+            # header members every event record type gets a sized payload member
+            for e in erts:
+                if e['p'] is None:
+                    e['p'] = {'minal': 1, 'members': []}
+                e['p']['members'].insert(0, ('k0', rand_int_ft(rng)))
         streams.append({'name': 'st%d' % si, 'clock': clock, 'pf': pf, 'ef': ef, 'pc_extra': pc_extra,
                         'cc': rand_struct(rng, 3) if rich and rng.random() < 0.35 else None, 'erts': erts})
     return {'bo': bo, 'native_known': native_known,
